@@ -3,7 +3,9 @@
 # /verif/seeded/<id>/ and run the named checks against /repo with the patch applied (undone afterwards).
 set -u
 ID=$1; shift
-W=/tmp/seed-$ID; O=/tmp/seed-$ID-out; S=/verif/seeded/$ID
+R=${SEED_ROUND:-}          # "" for round 1, "2" for round 2 (stored as <id>b)
+SUF=""; [ "$R" = "2" ] && SUF=b
+W=/tmp/seed$R-$ID; O=/tmp/seed$R-$ID-out; S=/verif/seeded/$ID$SUF
 mkdir -p $S
 echo "== suite with change"; (cd $W && cargo test --workspace --offline 2>&1 | grep -E "^test result" | head -3)
 echo "== demo with change"; (cd $O/demo && (cargo test --offline 2>&1 || true) | grep -E "test result|panicked|FAILED|error\[" | head -5; if [ -f src/main.rs ]; then (cargo run --offline 2>&1 | tail -3; echo "exit=$?"); fi)
